@@ -53,7 +53,7 @@ func init() {
 			"error-handled", "error-unhandled", "exit-on-later-iteration", "exit-through-function", "cleanup-nested>=2",
 			"mutex-checked", "stream-checked", "nontrivial-passed",
 			"cleanup-fails-on-normal-exit", "cleanup-fails-on-return", "cleanup-fails-on-go", "cleanup-fails-on-error",
-			"cleanup-error-handled", "cleanup-error-unhandled", "cleanup-error-through-outer-cleanup", "reentrant-exit-in-flight",
+			"cleanup-error-handled", "cleanup-error-unhandled", "cleanup-error-through-outer-cleanup", "reentrant-exit-in-flight", "go-to-a-tag-of-a-loop-body",
 		},
 		Bound:         bound,
 		Selftest:      selftest,
@@ -387,6 +387,7 @@ func cfg(tier string) tierCfg {
 
 func enumerate(tier string, emit func(string)) {
 	enumReentrant(tier, emit)
+	enumLoopTags(emit)
 	enumPrograms(tier, func(p *program) { emit(p.spec()) })
 }
 
@@ -805,6 +806,9 @@ func exec(spec string) (res engine.Result) {
 	}
 	if strings.HasPrefix(spec, "re|") {
 		return execReentrant(spec)
+	}
+	if strings.HasPrefix(spec, "lt|") {
+		return execLoopTags(spec)
 	}
 	p, perr := parseSpec(spec)
 	if perr != nil {
